@@ -278,6 +278,49 @@ func (b *Built) ref3(n *Node, p vec3) (float64, bool) {
 			w = math.Min(-p[1], d)
 		}
 		return math.Max(a, w), ok
+	case "multi3":
+		d := math.Inf(1)
+		for i := 0; i+2 < len(P); i += 3 {
+			x, ok := k3(0, vec3{p[0] - P[i], p[1] - P[i+1], p[2] - P[i+2]})
+			if !ok {
+				return 0, false
+			}
+			d = math.Min(d, x)
+		}
+		return d, true
+	case "lineof3":
+		d := math.Inf(1)
+		m := float64(len(n.S))
+		for i, c := range n.S {
+			if c != 'x' {
+				continue
+			}
+			f := float64(i) / m
+			x, ok := k3(0, vec3{p[0] - (P[0] + f*(P[3]-P[0])), p[1] - (P[1] + f*(P[4]-P[1])), p[2] - (P[2] + f*(P[5]-P[2]))})
+			if !ok {
+				return 0, false
+			}
+			d = math.Min(d, x)
+		}
+		return d, true
+	case "orient3":
+		// each copy is the operand rotated by the minimal rotation taking the base direction onto d
+		base := unit3(vec3{P[0], P[1], P[2]})
+		d := math.Inf(1)
+		for i := 3; i+2 < len(P); i += 3 {
+			dir := unit3(vec3{P[i], P[i+1], P[i+2]})
+			cr := cross3(base, dir)
+			q := p
+			if norm3(cr) > 1e-12 {
+				q = rodrigues(p, unit3(cr), -math.Atan2(norm3(cr), dot3(base, dir)))
+			}
+			x, ok := k3(0, q)
+			if !ok {
+				return 0, false
+			}
+			d = math.Min(d, x)
+		}
+		return d, true
 	case "screw":
 		// P: length taper pitch ; I[0]: starts. Right-handed for starts>0.
 		r := math.Hypot(p[0], p[1])
@@ -438,6 +481,31 @@ func (b *Built) ref2(n *Node, p vec2) (float64, bool) {
 		t := p[0]*fr.c2[0] + p[1]*fr.c2[1]
 		q := add3(vec3{P[0], P[1], P[2]}, add3(mul3(fr.e1, s), mul3(fr.e2, t)))
 		return b.Ref3(n.K[0], q)
+	case "multi2":
+		d := math.Inf(1)
+		for i := 0; i+1 < len(P); i += 2 {
+			x, ok := k2(0, vec2{p[0] - P[i], p[1] - P[i+1]})
+			if !ok {
+				return 0, false
+			}
+			d = math.Min(d, x)
+		}
+		return d, true
+	case "lineof2":
+		d := math.Inf(1)
+		m := float64(len(n.S))
+		for i, c := range n.S {
+			if c != 'x' {
+				continue
+			}
+			f := float64(i) / m
+			x, ok := k2(0, vec2{p[0] - (P[0] + f*(P[2]-P[0])), p[1] - (P[1] + f*(P[3]-P[1]))})
+			if !ok {
+				return 0, false
+			}
+			d = math.Min(d, x)
+		}
+		return d, true
 	case "cache2":
 		return k2(0, p)
 	case "center2":
